@@ -257,6 +257,8 @@ def run_c08(tier, seed):
               "between AND the declarations now connect the pair (the stale-memo shape)")
     random.Random(seed).shuffle(hists)
     v.samples = [[{"op": e["op"], "u": _b(e["u"]), "v": _b(e["v"]), "out": e["out"]} for e in h] for h in hists[:3]]
+    import ledger
+    ledger.run(v, "C08", tier, seed)        # code -> spec: recorded programs over the shipped units (epoch clauses)
     return v.finish()
 
 
@@ -543,6 +545,8 @@ def run_shapes(prop, tier, seed):
               "or did not succeed (C07)")
     rng.shuffle(cases)
     v.samples = [{"u": _b(c["u"]), "v": _b(c["v"]), "ratio_pv": c["pv"]} for c in cases[:5]]
+    import ledger
+    ledger.run(v, prop, tier, seed)         # code -> spec: recorded programs over the shipped units
     return v.finish()
 
 
